@@ -303,26 +303,73 @@ def canon(*roots, drop=()):
 # Library class-level state
 # ---------------------------------------------------------------------------------------------------------
 
-def reset_library_class_state():
-    """Put the class-level state of the library's agent classes and the global tag library back to pristine.
+_LIB_MODULES = ('ECAgent.Core', 'ECAgent.Environments', 'ECAgent.Collectors', 'ECAgent.Batching', 'ECAgent.Decode',
+                'ECAgent.Tags')
+_PRISTINE = None
+_IMMUTABLE = (type(None), bool, int, float, str, bytes, tuple, frozenset)
 
-    Needed because executions share one interpreter: _MetaAgent stores live on the class objects, and the
-    repository's own test suite shows how easily they leak (``Agent.tag = 2`` is never reset there).
+
+def _lib_state_slots():
+    """(owner, name, value) for every piece of module-level or class-level data of the library."""
+    import importlib
+    import sys
+    out = []
+    for mname in _LIB_MODULES:
+        mod = sys.modules.get(mname) or importlib.import_module(mname)
+        for name, val in list(vars(mod).items()):
+            if name.startswith('__'):
+                continue
+            if isinstance(val, type):
+                if val.__module__ == mname:
+                    for k, v in class_data(val):
+                        out.append((val, k, v))
+            elif isinstance(val, (dict, list, set)) or (type(val).__module__ == mname
+                                                       and not isinstance(val, types.FunctionType)):
+                out.append((mod, name, val))
+    return out
+
+
+def snapshot_library():
+    """Remember the pristine module-level and class-level data of the library (taken right after import)."""
+    global _PRISTINE
+    import copy
+    snap = []
+    for owner, name, val in _lib_state_slots():
+        if isinstance(val, _IMMUTABLE):
+            snap.append((owner, name, val, False))
+        else:
+            try:
+                snap.append((owner, name, copy.deepcopy(val), True))
+            except Exception:
+                pass
+    _PRISTINE = snap
+
+
+def reset_library():
+    """Put all module-level and class-level library data back to its pristine value.
+
+    Executions of the explorer share one interpreter, while every execution stands for a run on fresh objects.
+    State that the library keeps outside the objects (the _MetaAgent stores, the global tag library, and any
+    class-level container a change to the library may introduce) is therefore restored before each execution;
+    sharing *within* an execution (several models alive at once) stays visible to the checks.
     """
-    import ECAgent.Core as Core
-    for klass in (Core.Agent, Core.Environment):
-        klass._components = {}
-        klass._tag = 0
-        klass._id = klass.__name__
-    try:
-        import ECAgent.Environments as Envs
-        for name in ('SpaceWorld', 'DiscreteWorld', 'LineWorld', 'GridWorld'):
-            klass = getattr(Envs, name)
-            klass._components = {}
-            klass._tag = 0
-            klass._id = klass.__name__
-    except ImportError:
-        pass
+    import copy
+    if _PRISTINE is None:
+        snapshot_library()
+    known = set()
+    for owner, name, val, mutable in _PRISTINE:
+        known.add((id(owner), name))
+        v = copy.deepcopy(val) if mutable else val
+        if isinstance(owner, type):
+            type.__setattr__(owner, name, v)
+        else:
+            setattr(owner, name, v)
+    for owner, name, val in _lib_state_slots():
+        if (id(owner), name) not in known and isinstance(owner, type):
+            try:
+                type.__delattr__(owner, name)
+            except Exception:
+                pass
 
 
 def jsonable(o):
